@@ -345,17 +345,24 @@ func NativeRetries(n int) int { return n }
 // their lock operations and shared accesses and asks the solver for an interleaving with a data race; natively
 // they run in parallel goroutines (replayed under the race detector).
 func Concurrent(fs ...func()) {
-	var wg sync.WaitGroup
-	for _, f := range fs {
-		wg.Add(1)
-		go func(f func()) {
-			defer wg.Done()
-			defer func() { recover() }()
-			f()
-		}(f)
+	// The calls are repeated: a race through recycled state (sync.Pool, caches) only shows to the race detector once
+	// an item has actually travelled from one goroutine to another. Every harness passes calls that can be repeated
+	// (a repeated registration panics and is recovered here, leaving the state as it was).
+	for round := 0; round < concurrentRounds; round++ {
+		var wg sync.WaitGroup
+		for _, f := range fs {
+			wg.Add(1)
+			go func(f func()) {
+				defer wg.Done()
+				defer func() { recover() }()
+				f()
+			}(f)
+		}
+		wg.Wait()
 	}
-	wg.Wait()
 }
+
+const concurrentRounds = 40
 
 // AltBase64 returns a different unpadded base64url text that decodes to the same bytes as s (the unused low
 // bits of the last character are changed); ok is false when s has no unused bits (length divisible by 4).
